@@ -206,6 +206,12 @@ def program_diff():
                     for f in node.body:
                         if isinstance(f, (ast.FunctionDef, ast.AsyncFunctionDef)) and f.name == client_method(md_rpc(tag)):
                             want_params = [a.arg for a in f.args.args[1:]] + [a.arg for a in f.args.kwonlyargs]
+            rpc_desc = [m for svc in fdps[0].service if svc.name == svc_name for m in svc.method if m.name == md_rpc(tag)]
+            rtype = md["clientMethod"].get("resultType", "")
+            if rpc_desc and rtype and rtype.startswith("Iterable[") != bool(rpc_desc[0].server_streaming):
+                ok = False
+                bad[f"metadata-result:{tag}"] = (f"snippet metadata resultType {rtype!r}, but the RPC "
+                                                 f"{'streams' if rpc_desc[0].server_streaming else 'does not stream'} its reply")
             got_params = [p_.get("name") for p_ in md["clientMethod"].get("parameters", [])]
             if want_params is not None and got_params != want_params:
                 ok = False
